@@ -9,6 +9,7 @@ CONSTANTS
   EngSensors <- AllS
   Policy <- PolGreedy
   NSteps = 3
+  SpanSteps = 3
   Dt = 3
   OutDt = 3
   Events <- Imp9
